@@ -3,6 +3,7 @@
 import json, subprocess
 
 E1 = "E1 history BFS"
+E2 = "E2 bounded graph-space enumeration"
 CHECKS = {
     "C01": dict(
         engine=E1, category="model_checking", design_ref="DESIGN.md §5 C01, §3 E1, Appendix A",
@@ -29,6 +30,31 @@ CHECKS = {
         technique="explicit-state BFS over mutation histories; derived-state oracle (definition from the base view, source snapshot unchanged, C02/C03 oracles and one further C01 model step on every result)",
         text="On every distinct state reached within the bound (all 96 GraphSpecs): get_subgraph for all 16 subsets (incl. an absent name), reverse (and twice), set_all_edge_weights for w in {1,5,NaN} and to_single_edges are compared with their definitions computed from the source's base view; the source's private snapshot must be unchanged; every result must satisfy the C02 and (on uniform graphs) C03 state oracles and, in the deep stages, one further operation of every kind on it must agree with the C01 reference model.",
         note="Trusted: base view, reference model, snapshot accessor. Attributes of a collapsed edge are not asserted."),
+    "C04": dict(
+        engine=E2, category="model_checking", design_ref="DESIGN.md §5 C04, §3 E2",
+        technique="exhaustive enumeration of every labelled graph up to a size bound x every source/option, against an all-simple-paths oracle",
+        text="Every labelled graph of every kind up to the size bounds (weights {1,2}, {1,2,3}, {0,1,2}; parallel edges; self-loops; several insertion orders) is built on the real Graph; single_source for every source and first_only value, multi_source for every source subset (n<=4) and all_pairs are compared with an oracle that enumerates all simple paths: reported set = reachable set, exact distances, every path valid, path multiset = all shortest paths (positive weights), exactly one of them with first_only.",
+        note="Trusted: DFS path enumeration oracle (oracle.rs). Bounded: n<=5/6 as listed in the evidence's families; integer weights (exact sums). The >20-node parallel path is C07's."),
+    "C05": dict(
+        engine=E2, category="model_checking", design_ref="DESIGN.md §5 C05",
+        technique="exhaustive enumeration of every labelled graph up to a size bound x weighted x normalized, against exact-rational betweenness from enumerated shortest-path sets",
+        text="On every graph of the enumerated families betweenness_centrality (weighted/unweighted, normalized/raw) is compared with the definition computed in exact rationals from the sets of all shortest simple paths: endpoints excluded, unreachable pairs contribute nothing, undirected raw values halved, division by (n-1)(n-2) for n>2, one entry per node.",
+        note="Trusted: path-set oracle; tolerance 1e-9 relative. Bounded sizes as listed; positive weights {1,2},{1,2,3}."),
+    "C06": dict(
+        engine=E2, category="model_checking", design_ref="DESIGN.md §5 C06",
+        technique="exhaustive enumeration of every labelled graph up to a size bound x weighted x wf_improved, against the closeness definition computed from a Floyd-Warshall distance matrix",
+        text="On every graph of the enumerated families closeness_centrality is compared with (r-1)/sum of distances INTO the node over the nodes that reach it, times (r-1)/(n-1) under WF scaling, 0 when nothing reaches it; every asymmetric digraph in the families exercises the direction clause.",
+        note="Trusted: Floyd-Warshall oracle; tolerance 1e-9 relative. Bounded sizes as listed; positive weights."),
+    "C08": dict(
+        engine=E2, category="model_checking", design_ref="DESIGN.md §5 C08",
+        technique="exhaustive enumeration of graphs x all 16 option combinations x all targets x all cutoffs, metamorphic comparison with the unrestricted answer and between the three entry points",
+        text="For every graph of the families and every source, the unrestricted answer is the base; every combination of first_only x with_paths x target in {None}+nodes x cutoff in {None, every distinct distance, midpoints, max+1} through single_source, all_pairs and multi_source must restrict the base without changing it (this pits the distance-only fast path against the full algorithm); symmetry on undirected graphs, the triangle inequality, and get_all_shortest_paths_involving(x) as a multiset are checked too.",
+        note="Trusted: the unrestricted single_source answer as base (C04 ties it to the definition). Positive weights or hop counts; negative cutoffs outside the statement."),
+    "C10": dict(
+        engine=E2, category="model_checking", design_ref="DESIGN.md §5 C10",
+        technique="exhaustive enumeration of every labelled graph up to a size bound against Warshall-closure classes, plus exhaustive enumeration of all successor-set visiting orders of the SCC routine through an order seam",
+        text="Every digraph with n<=4/5 and undirected graph with n<=6/7 (loops and parallel edges at n<=3/4) x insertion orders: the three component functions, number/node component, bfs from every node, bfs_equal_size_partitions for k=1..n+1 and the kind guards are compared with reachability classes from a Warshall closure. For digraphs with n<=4 every combination of visiting orders of the successor sets inside strongly_connected_components is executed (the order dependence the tests cannot control).",
+        note="Trusted: Warshall oracle; the H4 order seam (shadowing Vec in place of HashSet iteration). Sizes as listed."),
 }
 
 PENDING = {}
@@ -70,6 +96,8 @@ def main():
         "engines": [
             {"name": E1, "path": "harness/src/e1.rs", "serves_properties": [p for p in ["C01", "C02", "C03", "C09", "C15"] if p in CHECKS],
              "kind_free_text": "explicit-state breadth-first search over mutation histories executed on the real Graph (state key: canonical snapshot of all private indexes via the feature-guarded accessor), reference model in harness/src/model.rs"},
+            {"name": E2, "path": "harness/src/e2.rs", "serves_properties": [p for p in ["C04", "C05", "C06", "C08", "C10", "C11", "C12", "C13", "C17", "C18", "C20"] if p in CHECKS],
+             "kind_free_text": "generates every labelled graph of a family (kind x n x every slot assignment over a small weight alphabet x insertion-order variants) on the real Graph and calls the function under test with every argument combination; brute-force oracles in harness/src/oracle.rs; E3 (harness/src/e3.rs) adds exhaustive / deviation-bounded exploration of hash-order choice points through the verif_hooks order seam"},
         ],
         "checks": checks,
         "notes": "Driver: ./check <ID> quick|thorough [--replay path]; exit 0 held / 1 VIOLATION / 2 machinery failure. Known findings: /verif/known_findings.json. Replay files: /verif/replays/<ID>/.",
